@@ -87,6 +87,12 @@ func genCase(t *rapid.T) Case {
 				}
 			}
 		}
+		// class "video track starts late": an audio-first stream whose first video message is message k > 17 (lal's
+		// TS start-up probe has then decided "no video"); the video starts with sequence header + key frame as usual
+		if cd.Video != "" && cd.Audio != "" && rapid.IntRange(0, 5).Draw(t, "lateVideo") == 0 {
+			k := rapid.SampledFrom([]int{17, 18, 20, 24, 30, 40}).Draw(t, "lateVideoAt") + rapid.IntRange(0, 3).Draw(t, "lateVideoPlus")
+			items = lateVideo(items, k, uint32(i+1))
+		}
 		c.Incs = append(c.Incs, Inc{Codecs: cd, Items: items})
 	}
 	n := rapid.IntRange(1, 5).Draw(t, "ncons")
@@ -95,9 +101,53 @@ func genCase(t *rapid.T) Case {
 		k.Kind = rapid.SampledFrom([]string{"rtmp", "flv", "ts"}).Draw(t, "kind")
 		k.Inc = rapid.IntRange(0, ninc-1).Draw(t, "inc")
 		k.JoinAt = rapid.IntRange(-1, len(c.Incs[k.Inc].Items)).Draw(t, "joinAt")
+		if lv := lateVideoAt(c.Incs[k.Inc].Items); lv > 0 && lv+2 < len(c.Incs[k.Inc].Items) && rapid.Bool().Draw(t, "joinInLateVideo") {
+			// behind the start of the late video track (mid-GOP, at key frames, ...)
+			k.JoinAt = lv + 2 + int(rapid.Uint32().Draw(t, "joinLate"))%(len(c.Incs[k.Inc].Items)-lv-2)
+			if rapid.Bool().Draw(t, "lateTs") {
+				k.Kind = "ts"
+			}
+		}
 		c.Cons = append(c.Cons, k)
 	}
 	return c
+}
+
+// lateVideo rearranges a generated A/V stream: metadata and the AAC sequence header first, then audio frames until k
+// messages precede the video sequence header, then the rest of the stream (video sequence header, key frame, ...) with
+// its clock moved behind the audio-only phase.
+func lateVideo(items []gen.Item, k int, serialBase uint32) []gen.Item {
+	firstFrame := len(items)
+	for i, it := range items {
+		if it.Kind == "video" || it.Kind == "audio" {
+			firstFrame = i
+			break
+		}
+	}
+	var head, vsh []gen.Item
+	start := uint32(0)
+	for _, it := range items[:firstFrame] {
+		if it.Kind == "vsh" {
+			vsh = append(vsh, it)
+			start = it.Ts
+		} else {
+			head = append(head, it)
+		}
+	}
+	out := append([]gen.Item(nil), head...)
+	n := 0
+	for len(out) < k {
+		n++
+		out = append(out, gen.Item{Kind: "audio", Ts: start + uint32(n-1)*23, ALen: 6 + n%40, ASeed: serialBase*100000 + 90000 + uint32(n)})
+	}
+	shift := uint32(n) * 23
+	for _, it := range append(vsh, items[firstFrame:]...) {
+		if it.Kind != "meta" || it.Ts != 0 {
+			it.Ts += shift
+		}
+		out = append(out, it)
+	}
+	return out
 }
 
 const streamName = "c02stream"
@@ -613,9 +663,38 @@ func checkReplay(P []pmsg, who, kind string, replay []int, j, gopNum, gopCap int
 	return nil
 }
 
+// lateVideoAt: index of the first video message if more than 16 messages precede it, else 0.
+func lateVideoAt(items []gen.Item) int {
+	for i, it := range items {
+		if it.Kind == "vsh" || it.Kind == "video" {
+			if i >= 16 {
+				return i
+			}
+			return 0
+		}
+	}
+	return 0
+}
+
 func classify(c Case) (bool, []string) {
 	var labels []string
 	nt := false
+	for ii, in := range c.Incs {
+		if lv := lateVideoAt(in.Items); lv > 0 {
+			labels = append(labels, "video-starts-late")
+			for _, k := range c.Cons {
+				if k.Kind == "ts" && k.Inc == ii && k.JoinAt > lv+1 {
+					g, _ := gopNumFor(c, "ts")
+					if g > 0 {
+						labels = append(labels, "video-starts-late:ts-join-after-video-start:cache-on")
+					} else {
+						labels = append(labels, "video-starts-late:ts-join-after-video-start:cache-off")
+					}
+					nt = true
+				}
+			}
+		}
+	}
 	if len(c.Incs) > 1 {
 		labels = append(labels, "two-incarnations")
 		a, b := c.Incs[0].Codecs, c.Incs[1].Codecs
